@@ -131,6 +131,15 @@ theorem aux_new_cycle (ts : TopoSortFn) (keys : List Nat) (pf : Nat → List Nat
     · simp [he]
     · simp [he]
 
+theorem aux_finish_not_err (g : Flat) (st : MergeSt) (c : List Nat) : finishPartition g st ≠ .err c := by
+  unfold finishPartition
+  split
+  · intro h; cases h
+  · simp only
+    split
+    · intro h; cases h
+    · split <;> intro h <;> cases h
+
 /-- the outcome is `err c` exactly when the topological sort of the dependency graph fails with `c` -/
 theorem aux_partition_err (ts : TopoSortFn) (g : Flat) (c : List Nat) :
     partitionWith ts g = .err c ↔
@@ -158,15 +167,7 @@ theorem aux_partition_err (ts : TopoSortFn) (g : Flat) (c : List Nat) :
       rw [hn] at key
       simp only at key
       constructor
-      · intro h
-        exfalso
-        revert h
-        simp only
-        split
-        · intro h; cases h
-        · split
-          · intro h; cases h
-          · split <;> intro h <;> cases h
+      · intro h; exact (aux_finish_not_err g _ c h).elim
       · intro h; exact (key.mpr h).elim
 
 /-! ### property theorems -/
